@@ -8,6 +8,55 @@ PID = "C12"
 P2 = [(0, 0), (3, 0), (0, 4), (3, 4)]
 
 
+def opt_path_count(a, b, inner, w, pen):
+    """Number of optimal warping paths of (a, b) under the band / penalty rules of the specification."""
+    l1, l2 = len(a), len(b)
+    W = w if w else max(l1, l2)
+    INF = float("inf")
+
+    def pd(p, q):
+        s = sum((x - y) ** 2 for x, y in zip(p, q))
+        if inner == "sq":
+            return s
+        return abs(p[0] - q[0]) if len(p) == 1 else int(round(s ** 0.5))
+    P = pen * pen if inner == "sq" else pen
+    cost = [[INF] * l2 for _ in range(l1)]
+    ways = [[0] * l2 for _ in range(l1)]
+    for i in range(l1):
+        for j in range(l2):
+            if not (i - max(0, l1 - l2) - W + 1 <= j <= i + max(0, l2 - l1) + W - 1):
+                continue
+            d = pd(a[i], b[j])
+            if i == 0 and j == 0:
+                cost[i][j], ways[i][j] = d, 1
+                continue
+            cands = []
+            if i > 0 and j > 0:
+                cands.append((cost[i - 1][j - 1], ways[i - 1][j - 1]))
+            if i > 0:
+                cands.append((cost[i - 1][j] + P, ways[i - 1][j]))
+            if j > 0:
+                cands.append((cost[i][j - 1] + P, ways[i][j - 1]))
+            m = min(c for c, _ in cands)
+            if m == INF:
+                continue
+            cost[i][j] = d + m
+            ways[i][j] = sum(wy for c, wy in cands if c == m)
+    return ways[l1 - 1][l2 - 1]
+
+
+def choices(it):
+    """Size of the space of 'one optimal path per selected series' that TLC searches for this case."""
+    n = 1
+    for k, sel in enumerate(it["mask"]):
+        if sel:
+            n *= max(1, opt_path_count(it["avg"], it["ser"][k], it["set"]["inner"], it["set"]["w"], it["set"]["pen"]))
+    return n
+
+
+MAX_CHOICES = 3000      # Allowed(new) is an existential over this product; heavier cases are not generated
+
+
 def make(rng, nser, Lmax, nd, vals=(0, 1, 3, 6)):
     def pt():
         return [rng.choice(vals)] if nd == 1 else list(rng.choice(P2))
@@ -72,6 +121,7 @@ def items(ctx):
         it = make(rng, rng.choice([9, 10]), 1, 1, vals=(0, 1, 3))
         it["avg"] = [[rng.choice((0, 1, 3))]]
         out.append(it)
+    out = [it for it in out if choices(it) <= MAX_CHOICES]
     for k, it in enumerate(out):
         it["id"] = "c12-%d" % k
     return out
@@ -109,7 +159,8 @@ def judge(ctx, src, its):
         records.append(rec)
         ctx.evaluations += len(rec["routes"]) + len(rec["loops"])
     ctx.log("Act T: TLC judges %d records (%d observations)" % (len(records), ctx.evaluations))
-    res = tlc.validate_traces("DBATrace", "DBATrace.cfg", records, chunk=60, parallel=14, canary_fields=["news"])
+    res = tlc.validate_traces("DBATrace", "DBATrace.cfg", records, chunk=60, parallel=14, canary_fields=["news"],
+                              timeout=1800 if ctx.quick else 14400)
     ctx.add_tv(res)
     classify(ctx, by_id, res["fails"])
     ctx.nontrivial = {it["id"] for it in its if (not all(it["mask"])) or it["set"]["w"] or it["set"]["pen"]}
